@@ -12,6 +12,7 @@ use crate::Program;
 
 use deno_ast::view as ast_view;
 use deno_ast::MediaType;
+use deno_ast::RootNode;
 use deno_ast::SourcePos;
 use deno_ast::SourceRange;
 use deno_ast::SourceRanged;
@@ -77,14 +78,16 @@ fn import_insertion_start(ctx: &Context) -> SourcePos {
     .unwrap_or(code_start)
 }
 
-/// Whether anything but white space follows `pos` on its line.
+/// Whether another token (not a comment) follows `pos` on its line.
 fn code_follows_on_line(ctx: &Context, pos: SourcePos) -> bool {
   let text_info = ctx.text_info();
-  let line_end = text_info.line_end(text_info.line_index(pos));
-  !text_info
-    .range_text(&SourceRange::new(pos, line_end))
-    .trim()
-    .is_empty()
+  ctx
+    .program()
+    .token_container()
+    .get_next_token(pos)
+    .is_some_and(|token| {
+      text_info.line_index(token.start()) == text_info.line_index(pos)
+    })
 }
 
 impl NoProcessGlobalHandler {
